@@ -4,8 +4,8 @@ CONSTANT HeadCallers = {3, 4}
 CONSTANT Callers = {1, 2, 3, 4}
 CONSTANT Hdrs = {1, 2, 3, 4}
 CONSTANT MaxRounds = 3
-CONSTANT GetOutcomes = {"valid", "invalid", "notfound", "fail"}
-CONSTANT HeadOutcomes = {"hdr", "invalid", "multi", "fail"}
+CONSTANT GetOutcomes = {"valid", "invalid", "notfound", "fail", "fail-dial", "fail-timeout", "fail-unsupported", "fail-io"}
+CONSTANT HeadOutcomes = {"hdr", "invalid", "multi", "fail", "fail-dial"}
 CONSTANT MaxPeerEvents = 3
 CONSTANT MaxSteps = 30
 CONSTANT StopAfter = 14
